@@ -44,7 +44,7 @@ def inline(rng: random.Random, depth=0, hazards=True) -> str:
         if depth > 0 and "nested_bracket_links" in AVOID:
             return w()
         t = inline_seq(rng, rng.randint(1, 2), depth + 1, hazards=False)
-        return rng.choice([f"[{t}](http://ex.com/a_b)", f"[{t}](/u \"Title\")", f"[{t}](<u v> 'T t')", f"[{t}][ref]", "[ref]", f"[{t}](u \"a \\\"b\\\" c\")",
+        return rng.choice([f"[{t}](http://ex.com/a_b)", f"[{t}](/u \"Title\")", f"[{t}](<u v> 'T t')", f"[{t}][ref]", "[ref]", "[Ref Two]", "[ref two]", f"[{t}][Ref Two]", f"[{t}](u \"a \\\"b\\\" c\")",
                            # same destination as a definition the generator may emit, with the same, another or no title
                            f"[{t}](http://ex.com/ref)", f"[{t}](http://ex.com/ref \"Other\")", f"[{t}](/u)", f"[{t}](/u \"Other title\")",
                            # destinations and titles whose escapes have to be written back
